@@ -379,33 +379,48 @@ class BitInt:
     def __ne__(self, o):
         return not self.__eq__(o)
 
-    def _cmp(self, o):
-        a, b = self.const_value(), (o.const_value() if isinstance(o, BitInt) else o)
-        if a is None or b is None:
-            # an upper bound from the highest possibly non-zero bit decides comparisons like x > u32::MAX
-            hi = max([i for i, bt in enumerate(self.bits) if bt.t], default=-1)
-            if isinstance(b, int) and (1 << (hi + 1)) - 1 <= b:
-                return -1 if (1 << (hi + 1)) - 1 < b else -2      # x <= b always (strictly less or possibly equal)
+    def _interval(self):
+        """[lo, hi] of the values the integer can take: unknown bits 0 / unknown bits 1"""
+        lo = hi = 0
+        for i, bt in enumerate(self.bits):
+            c = bt.const_value()
+            if c is None:
+                hi |= 1 << i
+            elif c:
+                lo |= 1 << i
+                hi |= 1 << i
+        return lo, hi
+
+    def _other(self, o):
+        b = o.const_value() if isinstance(o, BitInt) else o
+        if isinstance(b, bool):
+            b = int(b)
+        if not isinstance(b, int):
             raise Unanalysable("comparison of a symbolic bit-decomposed integer")
-        return (a > b) - (a < b)
+        return b
+
+    def _decide(self, true_if, false_if):
+        if true_if:
+            return True
+        if false_if:
+            return False
+        raise Unanalysable("comparison of a symbolic bit-decomposed integer")
 
     def __gt__(self, o):
-        return self._cmp(o) > 0
+        (lo, hi), b = self._interval(), self._other(o)
+        return self._decide(lo > b, hi <= b)
 
     def __ge__(self, o):
-        c = self._cmp(o)
-        if c == -2:
-            raise Unanalysable("comparison of a symbolic bit-decomposed integer")
-        return c >= 0
+        (lo, hi), b = self._interval(), self._other(o)
+        return self._decide(lo >= b, hi < b)
 
     def __lt__(self, o):
-        c = self._cmp(o)
-        if c == -2:
-            raise Unanalysable("comparison of a symbolic bit-decomposed integer")
-        return c < 0
+        (lo, hi), b = self._interval(), self._other(o)
+        return self._decide(hi < b, lo >= b)
 
     def __le__(self, o):
-        return self._cmp(o) <= 0
+        (lo, hi), b = self._interval(), self._other(o)
+        return self._decide(hi <= b, lo > b)
 
     def __hash__(self):
         return id(self)
@@ -1702,6 +1717,25 @@ def install_models(I):
         return o
     M["core::str::str::chars"] = str_chars
     M["core::str::<impl str>::chars"] = str_chars
+
+    def checked_addsub(op):
+        def m(I, a, f):
+            x, y = a[0], a[1]
+            if isinstance(x, int) and isinstance(y, int):
+                r = x + y if op == "add" else x - y
+                if 0 <= r < 2 ** 64:
+                    return Agg([r], "adt", "core::option::Option", "Some")
+                return Agg([], "adt", "core::option::Option", "None")
+            if op == "sub":
+                fits = I.decide(simplify_term(">=", x, y), "checked_sub")
+                if fits:
+                    return Agg([simplify_term("-", x, y)], "adt", "core::option::Option", "Some")
+                return Agg([], "adt", "core::option::Option", "None")
+            raise Unanalysable("checked_%s of %r, %r" % (op, x, y))
+        return m
+    for ty_ in ("u8", "u16", "u32", "u64", "usize"):
+        M["core::num::%s::checked_sub" % ty_] = checked_addsub("sub")
+        M["core::num::%s::checked_add" % ty_] = checked_addsub("add")
 
     def checked_shift(op):
         def m(I, a, f):
